@@ -30,6 +30,12 @@ traits in scope of the user's item as well, so it is a free name in disguise (un
 that way, and the hygiene predicate had waved `.name` through) -/
 theorem quote_table_no_method_calls : Generated.quoteMethods = [] := by decide +kernel
 
+/-- the only `Self::name` a template writes with a literal name is `Self::Output`, and only in the file that derives from
+structs: there `Self` is a struct (or a reference to one), which has no variants the name could mean instead.  In the
+impls generated from an annotated impl the self type is the user's and may be an enum (F33) -/
+theorem quote_table_self_paths :
+    Generated.quoteSelfPaths.all (fun p => p.1 == "Output" && p.2 == "item_type.rs") = true := by decide +kernel
+
 /-- templates that consist of a single identifier: beside what `litOK` admits, the attribute path `derive_ex` the expander
 compares attributes with (not generated code) -/
 def knownSingles : List String := ["derive_ex"]
